@@ -109,7 +109,9 @@ def run(tier):
         'writes = get without commit; thorough: every length min..size with both commit calls mixed) and every reader step '
         'R_i(max in {1,3,2^30}, advance in {all,1,0}); whole BFS levels until the state count reaches the target '
         '(%d fast / %d ASan per job) or depth %d; every new state is observed with avail_size, check_fast, calc_size, '
-        'rpos_init(0,size/2,size); a transition is non-trivial when bytes were committed / delivered / consumed'
+        'rpos_init(0,size/2,size); a transition is non-trivial when bytes were committed / delivered / consumed.  Plus (configuration big) '
+        'deterministic long histories on rings of 3000..65536 bytes with minimum blocks 1..188 (block tables of several pages), three '
+        'readers with different lags, against a byte-stream model, every mapping of the library followed by an inaccessible page'
         % (t_fast, t_asan, depth))
     rep.assumptions = [
         'the producer fills exactly the bytes it commits, never more than r_buf_wbuf_get() returned; get+fill+commit is one atomic step (single-threaded event loop usage)',
@@ -126,6 +128,10 @@ def run(tier):
     with ThreadPoolExecutor(core.NCPU) as ex:
         list(ex.map(lambda j: run_job(rep, bins, j[0], j[1], j[2], cap, per_job), jobs))
     rep.configs = sorted(per_job)
+    # large geometries (block tables of several pages): deterministic long histories, every mapping followed by a guard page
+    big = core.compile_c('C19', 'h_c19_big', ['harness/C19/h_c19_big.c', core.repo_src('utils', 'ring_buffer.c')],
+                         flags=['-Wl,--wrap=mmap,--wrap=munmap'], cc='gcc', opt='-O1', san='none')
+    core.run_sharded(rep, big, tier, nshards=4, config='big')
 
     def tot(k):
         return sum(v.get(k, 0) for v in per_job.values() if isinstance(v.get(k, 0), int))
@@ -147,7 +153,11 @@ def run(tier):
     if not rep.extra['sum_round_counter_wraps']:
         rep.harness_errors.append('vacuous: the round counter never wrapped')
 
+    big_replay = core.make_replayer(lambda cfg: big, tier)
+
     def replayer(target, clause, idx, config):
+        if config == 'big':
+            return big_replay(target, clause, idx, config)
         if clause.startswith('crash'):
             return True
         cases = rep.viol.get((target, clause), [])
@@ -163,6 +173,13 @@ def run(tier):
 
 def replay(r, tier):
     """./check C19 --replay replay/C19/<file>: re-executes the recorded history on a fresh ring."""
+    if r.get('config') == 'big':
+        big = core.compile_c('C19', 'h_c19_big', ['harness/C19/h_c19_big.c', core.repo_src('utils', 'ring_buffer.c')],
+                             flags=['-Wl,--wrap=mmap,--wrap=munmap'], cc='gcc', opt='-O1', san='none')
+        p = subprocess.run([big, '--tier', tier, '--only', '%s#%s' % (r['target'], r['index'])], capture_output=True)
+        import sys
+        sys.stdout.write(p.stdout.decode('utf-8', 'replace'))
+        return 1 if b'VIOL\t' in p.stdout else 0
     bins = build()
     v, rc = trace_hits(bins['asan'], r['case'])
     for t, c, d in v:
